@@ -585,6 +585,8 @@ Definition event_of_item (i : aitem) : aevent :=
   mkAevent n_dialogue (ae_effect a) (ai_end i) (ae_layer a) (ae_marked a) (ae_ml a) (ae_mr a) (ae_mv a)
            (item_name (ai_lines i)) (ai_start i) (match ai_style i with Some n => n | None => [] end)
            (item_text_ssa (ai_lines i)).
+(* strings.ReplaceAll(e.name, ",", ";"): a comma in the speaker name would shift the columns of the row *)
+Definition name_cell (n : str) : str := map (fun c => if c =? 44 then 59 else c) n.
 (* one cell of ssaEvent.string *)
 Definition oz (v : option Z) : Z := match v with Some z => z | None => 0%Z end.
 Definition event_cell_string (a : eattr) (e : aevent) : str :=
@@ -593,7 +595,7 @@ Definition event_cell_string (a : eattr) (e : aevent) : str :=
   | EMarked => match av_marked e with Some true => n_marked1 | _ => n_marked0 end
   | ELayer => itoa_z (oz (av_layer e)) | EMarginL => itoa_z (oz (av_ml e))
   | EMarginR => itoa_z (oz (av_mr e)) | EMarginV => itoa_z (oz (av_mv e))
-  | EEffect => av_effect e | EName => av_name e | EStyle => av_style e | EText => av_text e
+  | EEffect => av_effect e | EName => name_cell (av_name e) | EStyle => av_style e | EText => av_text e
   end.
 Definition event_string (e : aevent) (fmt : list eattr) : str :=
   join [comma] (map (fun a => event_cell_string a e) fmt).
